@@ -92,8 +92,15 @@ pub fn splice_customs(bytes: &[u8], rng: &mut Rng, n: u32) -> Vec<u8> {
     // (the `.debug*` names are sections walrus interprets: they are not part of C12's statement themselves, but
     // uninterpreted sections must keep their payload, multiplicity and relative order AROUND them)
     const NAMES: &[&str] = &["foo", "", "bar", "foo", "linking", "names", "producer", "debug_info", "ünï", "target_features", ".Debug_x", "name2", ".debug_str", ".debug_info", ".debug_x", "baz"];
+    // names whose length needs a two-byte LEB prefix (128 bytes and more)
+    let long_a: String = "long-name-".chars().cycle().take(128).collect();
+    let long_b: String = "l0ng.".chars().cycle().take(300).collect();
     for _ in 0..n {
-        let name = *rng.pick(NAMES);
+        let name: &str = match rng.below(14) {
+            0 => &long_a,
+            1 => &long_b,
+            _ => *rng.pick(NAMES),
+        };
         let len = gen::boundary_len(rng);
         let data = rng.bytes(len);
         let sec = wasmsplit::custom_section_bytes(name.as_bytes(), &data);
